@@ -80,6 +80,8 @@ typedef void (*vcase_fn)(long idx, void *arg);
 int vfork_case(long idx, vcase_fn fn, void *arg, int watchdog_s, const char *cls);
 /* true once three forked cases of this worker have reported violations, died or hung: the run is lost, stop burning time */
 bool vstop_early(void);
+/* checks whose cases are short and which list known findings (crashes that must not end the run) stop on hangs only */
+void vstop_early_hangs_only(bool on);
 
 /* misc */
 double vnow(void);
